@@ -78,7 +78,9 @@ def checkkind_rules(fb, ctx):
                 tab[(v or "").split("::")[-1]] = ("!" if neg else "") + q + ("?" if prop else "")
         want = {"One": "query_match?", "All": "query_match_all?", "Reject": "!query_match?"}
         ctx.check(tab == want, "CHECKKIND", f"check loop #{n}: One -> exists, All -> exists and forall, Reject -> not exists (errors propagated)", f"CHECKKIND|loop{n}", f"found {tab}, the semantics requires {want}", where)
-        # block-id agreement inside the loop
+        # block-id agreement inside the loop (`let block_id = i + 1;` stands for `i + 1`)
+        pl_ = hirq.pure_lets(h)
+        estr = lambda n_, _e=globals()["estr"]: _e(hirq.expand_places(n_, pl_))
         ids = []
         for c in mcalls(loop, r"origin::TrustedOrigins::from_scopes$") + [x for x in find_all(loop, lambda z: z.get("k") == "call" and z.get("f", {}).get("k") == "path" and (z["f"]["res"].get("path") or "").endswith("TrustedOrigins::from_scopes"))]:
             ids.append(("from_scopes", estr(c["args"][2])))
